@@ -339,6 +339,10 @@ func (w *nodeWorld) buildTxs(a *app.Haqq, ctx sdk.Context, tok string) [][]byte 
 	case "eth":
 		to := w.freshAddr()
 		return [][]byte{w.ethTx(a, ctx, ki(1), &to, mustBig(f[2]), nil, 100_000, 0)}
+	case "ethm":
+		// an EVM value transfer to the hex form of a module account
+		to := common.BytesToAddress(authtypes.NewModuleAddress(f[2]).Bytes())
+		return [][]byte{w.ethTx(a, ctx, ki(1), &to, mustBig(f[3]), nil, 100_000, 0)}
 	case "badnonce":
 		to := w.freshAddr()
 		return [][]byte{w.ethTx(a, ctx, ki(1), &to, big.NewInt(1), nil, 100_000, 3)}
@@ -499,7 +503,12 @@ func nodeGen(r *rand.Rand, tier string, prop string) []Case {
 				case x < 2:
 					txs = append(txs, fmt.Sprintf("send.%d.%d.%d", k, r.Intn(nodeKeys+3), 1+r.Intn(1_000_000)))
 				case x < 4:
-					txs = append(txs, fmt.Sprintf("eth.%d.%d", k, 1+r.Intn(1_000_000)))
+					if r.Intn(4) == 0 {
+						m := pick(r, []string{"not_bonded_tokens_pool", "bonded_tokens_pool", "distribution", "fee_collector", "gov", "evm"})
+						txs = append(txs, fmt.Sprintf("ethm.%d.%s.%d", k, m, 1+r.Intn(1_000_000)))
+					} else {
+						txs = append(txs, fmt.Sprintf("eth.%d.%d", k, 1+r.Intn(1_000_000)))
+					}
 				case x < 7:
 					// a puppet transaction that pays several new accounts (several dirty new accounts in one Commit)
 					var s []string
